@@ -24,7 +24,8 @@ LANGSETS = [
     ("str", "%"),
     ("set", ("python",)),
 ]
-RETURNS = [0, 1, 2, 3, 4, 5, 8, None]
+RETURNS = [0, 1, 2, 3, 4, 5, 8, 12, None]
+RETURNS_ALL = list(range(16)) + [None]
 RETURNS_REDUCED = [0, 1, 2, None]
 EVENT_LANGS = ["python", "java", "go"]
 
@@ -157,7 +158,7 @@ def worker(task):
     k1, k2, unknown = kinds
     mode, first, n, returns_name = task
     langsets = LANGSETS
-    vs = variants(RETURNS if returns_name == "full" else RETURNS_REDUCED, langsets)
+    vs = variants({"full": RETURNS, "all": RETURNS_ALL, "reduced": RETURNS_REDUCED}[returns_name], langsets)
     rep = []
     stats = {"notifies": 0, "handler_runs": 0, "outcomes": {}, "registrations": 0}
     if mode == "same-kind":
@@ -227,9 +228,12 @@ def main():
     tasks = [("same-kind", None, 0, "full")]
     full = variants(RETURNS, LANGSETS)
     red = variants(RETURNS_REDUCED, LANGSETS)
-    for f in full:
-        tasks.append(("same-kind", f, 1, "full"))
-        tasks.append(("same-kind", f, 2, "full"))
+    allv = variants(RETURNS_ALL, LANGSETS)
+    for f in allv:
+        tasks.append(("same-kind", f, 1, "all"))
+        tasks.append(("same-kind", f, 2, "all"))
+    for i in range(len(HIST_OPS)):
+        tasks.append(("history", i, 4 if quick else 5, "hist"))
     if quick:
         for f in full:
             tasks.append(("same-kind", f, 3, "full"))
@@ -287,8 +291,92 @@ def main():
     return 1 if new else 0
 
 
+HIST_VARIANTS = [(li, r, w) for li in (0, 1, 2) for r in (0, 1, 2) for w in (False, True)]
+HIST_OPS = [("reg", v) for v in HIST_VARIANTS] + [("notify", l) for l in EVENT_LANGS]
+
+
+def history_worker(first_index, depth):
+    """All histories of register / notify operations of length <= depth that start with HIST_OPS[first_index], on ONE
+    manager per history (registrations may follow notifications)."""
+    mods, kinds = _G["mods"], _G["kinds"]
+    em_mod, er, ht, constants = mods
+    k1, k2, unknown = kinds
+    rep = []
+    stats = {"notifies": 0, "handler_runs": 0, "outcomes": {}, "registrations": 0}
+    em = _G["em"]
+
+    def run(hist):
+        em.event_handlers[k1].clear()
+        # a fresh manager state for caches that a manager might keep: rebuild when the class grows new attributes
+        regs = []
+        log = []
+        for step, (kind, arg) in enumerate(hist):
+            if kind == "reg":
+                li, r, w = arg
+                form, langs = LANGSETS[li]
+                hid = len(regs)
+
+                def h(data, hid=hid, r=r, w=w):
+                    log.append((hid, data.in_data))
+                    if w:
+                        data.out_data = ("out", hid)
+                    return r
+                em.register(k1, h, list(langs))
+                regs.append((k1, tuple(langs), r, w, hid))
+            else:
+                del log[:]
+                data = ht.EventData(arg, k1, ("in",))
+                got = em.notify(data)
+                exp_ret, exp_log, exp_out = model_notify(regs, arg, k1, {k1, k2}, ("in",))
+                stats["notifies"] += 1
+                stats["handler_runs"] += len(log)
+                oc = (len(log), exp_ret)
+                stats["outcomes"][oc] = stats["outcomes"].get(oc, 0) + 1
+                if log != exp_log or data.out_data != exp_out or (got & 14) != (exp_ret & 14) or bool(got) != bool(exp_ret):
+                    desc = " ; ".join(f"register({LANGSETS[a[0]][1]},ret={a[1]},writes={a[2]})" if k == "reg" else f"notify({a})" for k, a in hist[:step + 1])
+                    rep.append(("history", f"after this history notify ran {[x[0] for x in log]} (model {[x[0] for x in exp_log]}), "
+                                f"in_data {log} vs {exp_log}, return {got} vs {exp_ret}: {desc}",
+                                {"history": [[k, list(a) if isinstance(a, tuple) else a] for k, a in hist[:step + 1]]}, step + 1, desc))
+                    return False
+        return True
+
+    def rec(hist):
+        if len(rep) > 20:
+            return
+        stats["registrations"] += 1
+        fresh = fresh_manager(em_mod) if False else None
+        if not run(hist):
+            return
+        if len(hist) < depth:
+            for op in HIST_OPS:
+                rec(hist + [op])
+    # every history gets its own manager so that manager-internal caches start empty
+    def rec2(hist):
+        nonlocal em
+        if len(rep) > 20:
+            return
+        if hist and hist[-1][0] == "notify" or len(hist) == depth:
+            em = fresh_manager(em_mod)
+            em.event_handlers[k1].clear()
+            stats["registrations"] += 1
+            if not run_on(em, hist):
+                return
+        if len(hist) < depth:
+            for op in HIST_OPS:
+                rec2(hist + [op])
+
+    def run_on(manager, hist):
+        nonlocal em
+        em = manager
+        return run(hist)
+    rec2([HIST_OPS[first_index]])
+    return rep, stats
+
+
 def worker_safe(task):
     mode, first, n, rn = task
+    if mode == "history":
+        return history_worker(first, n)
     if n == 0:
         mods, em, kinds = _G["mods"], _G["em"], _G["kinds"]
         rep = []
